@@ -436,7 +436,9 @@ class Builtins:
                            patterns=[z3.MultiPattern(m(k), m(k2))]))
         e.assume(z3.ForAll([j], z3.Implies(z3.And(0 <= j, j < nsrc, P),
                                            z3.And(0 <= inv(j), inv(j) < ln, m(inv(j)) == j,
-                                                  z3.Select(out_arr, inv(j)) == elt.t)), patterns=[x.t]))
+                                                  z3.Select(out_arr, inv(j)) == elt.t)),
+                           patterns=[x.t if (z3.is_app(x.t) and x.t.decl().kind() in (z3.Z3_OP_UNINTERPRETED, z3.Z3_OP_SELECT)
+                                             and self._pattern_ok(x.t) and self._mentions(x.t, j)) else inv(j)]))
         out = e.new_list(ety, ln, out_arr)
         out.view = ("filter", m, inv, src, P, j)
         return out
@@ -961,6 +963,32 @@ class Builtins:
         v = e.list_get(base, ln - 1)
         e.hwrite("list.len", base.t, ln - 1, I)
         return v
+
+    def m_list_remove(self, base, args, kwargs, n, line):
+        """lst.remove(x): drops the FIRST element equal to x (identity/value equality of the modelled sort);
+        ValueError if there is none"""
+        e = self.e
+        from vlib.pyvc.engine import fresh, lift
+        ety = base.ty.args[0]
+        ln = e.list_len(base.t)
+        arr = e.list_arr(base.t, ety)
+        v = e.coerce(args[0], ety)
+        j = z3.Int("j!rm")
+        present = z3.Exists([j], z3.And(0 <= j, j < ln, z3.Select(arr, j) == v.t))
+        e.fail("ValueError", z3.Not(present), line, "remove-absent")
+        idx = fresh("rmidx", I)
+        e.assume(z3.And(0 <= idx, idx < ln, z3.Select(arr, idx) == v.t,
+                        z3.ForAll([j], z3.Implies(z3.And(0 <= j, j < idx), z3.Select(arr, j) != v.t))))
+        e.hwrite(f"list.elem.{T.sort_name(ety)}", base.t,
+                 z3.Lambda([j], z3.If(j < idx, z3.Select(arr, j), z3.Select(arr, j + 1))), z3.ArraySort(I, T.sort_of(ety)))
+        e.hwrite("list.len", base.t, ln - 1, I)
+        # consequence of the definition, stated with its witness so that membership survives the shift of indices:
+        # every other element of the old list is in the new one, at j (before idx) or j - 1 (after it)
+        narr = e.list_arr(base.t, ety)
+        e.assume(z3.ForAll([j], z3.Implies(z3.And(0 <= j, j < ln, j != idx),
+                                           z3.Select(narr, z3.If(j < idx, j, j - 1)) == z3.Select(arr, j)),
+                           patterns=[z3.Select(arr, j)]))
+        return lift(None)
 
     def m_list_reverse(self, base, args, kwargs, n, line):
         e = self.e
